@@ -236,7 +236,13 @@ struct TilesetStream : Family {
 			if (c < 30) op = mkline("op", "custom");
 			else if (c < 55) op = mkline("op", "bmp");
 			else if (c < 85) { op = mkline("op", "peek"); op.set("sig", SIG[r.below(8)]).set("start", r.below(20)).set("tail", r.below(12)).set("seed", hex64(r.next())); }
-			else { op = mkline("op", "invalid"); op.set("kind", INV[r.below(6)]).set("via", r.below(3)); }
+			else {
+				// one constraint broken, or two broken so that the scan line still has 32 bytes (4-bit x 64, 1-bit x 256) / height and width both off;
+				// orientation of the bad picture and the overload used to save it vary as well
+				static const char* INV2[] = {"w31", "w33", "h33", "h1", "bpp4", "bpp1", "bpp4w64", "bpp4w63", "bpp1w256", "bpp1w250", "w64h33", "bpp4h1"};
+				op = mkline("op", "invalid");
+				op.set("kind", INV2[r.below(12)]).set("via", r.below(3)).set("topdown", r.below(2)).set("rv", r.below(2));
+			}
 			p.ops.push_back(op);
 		}
 		return p;
@@ -348,12 +354,20 @@ struct TilesetStream : Family {
 				uint32_t w = 32;
 				int32_t h = 32;
 				uint16_t bpp = 8;
-				if (kind == "w31") w = 31; else if (kind == "w33") w = 33; else if (kind == "h33") h = 33; else if (kind == "h1") h = -1; else if (kind == "bpp4") bpp = 4; else bpp = 1;
+				if (kind == "w31") w = 31; else if (kind == "w33") w = 33; else if (kind == "h33") h = 33; else if (kind == "h1") h = -1; else if (kind == "bpp4") bpp = 4; else if (kind == "bpp1") bpp = 1;
+				else if (kind == "bpp4w64") { bpp = 4; w = 64; } else if (kind == "bpp4w63") { bpp = 4; w = 63; } else if (kind == "bpp1w256") { bpp = 1; w = 256; } else if (kind == "bpp1w250") { bpp = 1; w = 250; }
+				else if (kind == "w64h33") { w = 64; h = 33; } else { bpp = 4; h = -1; }
+				bool pair = kind.size() > 4 && kind != "bpp1";
+				if (op.u("topdown", 0) && h > 0) h = -h; else if (!op.u("topdown", 0) && h < 0 && h != -1) h = -h;
 				BitmapFile bad;
 				Out o = callLib(plan, [&] { bad = BitmapFile::CreateIndexed(bpp, w, h); }, &what);
 				if (o != OkOut) throw std::runtime_error("could not build an invalid tileset picture: " + what);
+				if (via == 2 && pair) via = op.u("rv", 0); // the header-field route needs a single named field
 				if (via == 0) {
-					o = callLib(plan, [&] { Stream::DynamicMemoryWriter wr; Tileset::WriteCustomTileset(wr, bad); }, &what);
+					o = callLib(plan, [&] {
+						if (op.u("rv", 0)) { Tileset::WriteCustomTileset(Stream::DynamicMemoryWriter(), bad); } // rvalue-reference overload
+						else { Stream::DynamicMemoryWriter wr; Tileset::WriteCustomTileset(wr, bad); }
+					}, &what);
 					if (o == OkOut) ctx.fail("C09.refuse-invalid", "a " + std::to_string(bpp) + "-bit " + std::to_string(w) + "x" + std::to_string(h) + " picture was saved as a tileset");
 				} else if (via == 1) {
 					std::vector<uint8_t> bytes = writeVia(plan, ctx, "dyn", "bad", "C09.refuse-invalid", [&](Stream::Writer& wr) { bad.WriteIndexed(wr); });
